@@ -192,6 +192,7 @@ LAYOUTS = [
     [("Server", ["x86_64", "s390x"], True)],
     [("Server", ["x86_64", "ppc64le", "aarch64"], True), ("Client", ["x86_64"], False)],
     [("Server", ["x86_64"], False), ("Workstation", ["x86_64", "i386"], True)],
+    [("Server", ["x86_64"], True), ("Client", ["x86_64", "s390x"], True)],        # two variants, each with its own src table, sharing packages and arches
 ]
 
 
